@@ -119,6 +119,7 @@ let handle = function
   | ["uridec"; plus; cps] -> (match uri_dec (bool_of plus) (cps_of_string cps) with Some l -> "S " ^ string_of_cps l | None -> "N")
   | ["jread"; h] -> (match json_read (bytes_of_hex h) with Ok v -> "V " ^ show_json v | Err -> "E" | Fuel -> "FUEL")
   | ["jwrite"; t] -> (match jwrite (parse_json t) with Some b -> "S " ^ hex_of_bytes b | None -> "N")
+  | ["numok"; m; e; d; k; p] -> if num_accept (z_of_hex m) (z_of_hex e) (z_of_hex d) (z_of_hex k) (z_of_hex p) then "T" else "F"
   | ["jexpect"; t] -> "V " ^ show_json (utf8_val (parse_json t))
   | ["b64enc"; h] -> hex_of_bytes (b64_encode (bytes_of_hex h))
   | ["b64dec"; h] -> hex_of_bytes (b64_decode (bytes_of_hex h))
